@@ -127,7 +127,7 @@ def check(case):
         Xtrain = Xpred = X.astype(np.int16)  # the detector gets the narrow integers, the reference model the same numbers as floats
     with sut("SeededBinarySegmentation.fit/predict"):
         spec_ = K.detector_spec("SeededBinarySegmentation", params)
-        det = K.reconfigured(spec_, Xtrain) if history == "reconfigured" else K.build(spec_)
+        det = K.build_with_history(spec_, Xtrain, history)
         if history == "scorer_prefit_wide" and not K.prefit_scorer_wide(det, Xtrain):
             history = None
         det.fit(Xtrain)
